@@ -85,7 +85,9 @@ PROPS = {
                S('flat', ops=['start', 'pe:1', 'pe:2', 'pe:3', 'pe:4'], submits=1, guards=1, qbound=2, submit_in_nt=True),
                # single step / drain on a machine whose table has completion rows (the step that handles an event is
                # followed by completion processing, which must not drag the rest of the queue along)
-               S('compl', ops=['start', 'pe:1', 'pe:2', 'pe:3', 'eq:4', 'eq:1', 'xs', 'xq'], qbound=2)],
+               S('compl', ops=['start', 'pe:1', 'pe:2', 'pe:3', 'eq:4', 'eq:1', 'xs', 'xq'], qbound=2),
+               # a behaviour throws and exception_caught submits an event: it must be stored like any other nested submission
+               S('flat', ops=['start', 'pe:1', 'pe:2', 'pe:4'], faults=1, fault_ops=1, submits=1, guards=1, qbound=2)],
         thorough=[S('flat', ops=['start', 'pe:1', 'pe:2', 'pe:3', 'pe:4', 'eq:1', 'eq:3', 'xq', 'xs'], submits=2, guards=1, qbound=2),
                   S('hier2', ops=['start', 'pe:1', 'pe:2', 'pe:3', 'pe:4', 'eq:1', 'xq', 'xs'], submits=1, guards=2, qbound=2),
                   S('ortho', ops=['start', 'pe:1', 'pe:2', 'pe:3', 'eq:1', 'xq', 'xs'], submits=2, guards=1, qbound=2),
